@@ -255,7 +255,7 @@ func (sc *c08Scen) findMultiple(ids []string) (c *querylog.Client, err error) {
 
 func (sc *c08Scen) shouldCountClient(ids []string) bool {
 	for _, id := range ids {
-		if cli, ok := sc.stor.Find(id); ok {
+		if cli, ok := sc.stor.FindByClientIDOrIP(id); ok {
 			return !cli.IgnoreStatistics
 		}
 	}
@@ -363,7 +363,6 @@ func (sc *c08Scen) query(spelled string, any bool, addr netip.Addr, cid string) 
 	owner := c08Owner(sc.cls, sc.dhcp, cid, addr)
 	if m, merr := net.ParseMAC(cid); merr == nil {
 		if mo := c08OwnerOfMAC(sc.cls, m); mo != nil && mo != owner && c08Owner(sc.cls, sc.dhcp, cid, netip.Addr{}) == nil {
-			sc.macDiverge = true
 			sc.cls2["maclike-clientid"] = true
 		}
 	}
